@@ -290,4 +290,197 @@ Section SimSort.
           upd_eq.
     - inversion HM; subst out' x' y'. rewrite (Hstop A eq_refl). eauto.
   Qed.
+
+  (** the state after the split: [_sl[0]] and [_sl[1]] live at the two next
+      free object indices *)
+  Definition p_split (p : pstate) (l : nat) (o : lobj) (t : addr) (k : nat) : pstate :=
+    let a := length (objs p) in
+    let b := S a in
+    let h1 := hupd (nx p) (Hd a) (nx p (Hd l)) in
+    let h2 := hupd h1 (Hd b) (h1 t) in
+    let h3 := hupd h2 t None in
+    let h4 := hupd h3 (Hd l) None in
+    mkP h4 (upd (objs p) l (mkLO (Hd l) 0) ++
+            [mkLO t (N.of_nat k); mkLO (lt o) (lcount o - N.of_nat k)]).
+
+  Lemma p_sort_S f p l o :
+    nth_error (objs p) l = Some o -> (1 <? lcount o) = true ->
+    p_sort key (S f) p l =
+    let a := length (objs p) in
+    let b := S a in
+    let k := N.to_nat (lcount o / 2) in
+    match p_walk_links k (nx p) (Hd l) with
+    | Flt => Flt
+    | Ok t =>
+      match p_sort key f (p_split p l o t k) a with
+      | Flt => Flt
+      | Ok p1 =>
+        match p_sort key f p1 b with
+        | Flt => Flt
+        | Ok p2 =>
+          match nth_error (objs p2) a, nth_error (objs p2) b with
+          | Some oa2, Some ob2 =>
+            match p_merge key (N.to_nat (lcount oa2 + lcount ob2)) p2 l a b with
+            | Flt => Flt
+            | Ok p3 =>
+              match nth_error (objs p3) l, nth_error (objs p3) a, nth_error (objs p3) b with
+              | Some ol, Some oa, Some ob =>
+                let p4 := if 0 <? lcount oa then p_concat p3 l a ol oa else p_concat p3 l b ol ob in
+                Ok (mkP (nx p4) (firstn a (objs p4)))
+              | _, _, _ => Flt
+              end
+            end
+          | _, _ => Flt
+          end
+        end
+      end
+    end.
+  Proof. intros E H. cbn [p_sort]. rewrite E, H. reflexivity. Qed.
+
+  Lemma sys_wf_sort A l sl fuel sl' :
+    sys_wf A -> nth_error A l = Some sl -> (length (items sl) <= fuel)%nat ->
+    sort key fuel sl = Ok sl' -> sys_wf (upd A l sl').
+  Proof.
+    intros W E Hf HS. pose proof W as (Wf & Wn).
+    pose proof (nth_error_Forall _ _ _ _ Wf E) as Wsl.
+    destruct (sort_spec key fuel sl Wsl Hf) as (sl2 & H1 & H2 & H3 & H4).
+    rewrite HS in H1. inversion H1; subst sl2.
+    eapply sys_wf_upd; eauto. intros pre post Hnd Eq.
+    eapply NoDup_swap_mid; [|exact Hnd]. auto.
+  Qed.
+
+  Ltac firstn_push :=
+    repeat ((rewrite firstn_upd_ge by lia) || (rewrite firstn_upd_lt by lia)).
+
+  Lemma sim_sort fuel : forall A p l sl sl',
+    sys_wf A -> R A p -> nth_error A l = Some sl -> (length (items sl) <= fuel)%nat ->
+    sort key fuel sl = Ok sl' ->
+    exists p', p_sort key fuel p l = Ok p' /\ R (upd A l sl') p'.
+  Proof.
+    induction fuel as [|f IH]; intros A p l sl sl' W HR E Hf HS;
+      pose proof W as (Wf & Wn); pose proof (nth_error_Forall _ _ _ _ Wf E) as Wsl;
+      destruct (proj2 HR _ _ E) as (o & Eo & C & Ht & Hc).
+    - cbn [sort] in HS. cbn [p_sort]. rewrite Eo, Hc.
+      destruct (1 <? count sl) eqn:E1; [discriminate|].
+      inversion HS; subst sl'. rewrite upd_same by auto. eauto.
+    - cbn [sort] in HS. destruct (1 <? count sl) eqn:E1.
+      2:{ cbn [p_sort]. rewrite Eo, Hc, E1. inversion HS; subst sl'. rewrite upd_same by auto. eauto. }
+      rewrite (p_sort_S f p l o Eo) by (rewrite Hc; exact E1).
+      cbv zeta. rewrite Hc.
+      pose proof Wsl as (Htl & Hcnt & Hnd).
+      pose proof (proj1 HR) as Hlen.
+      assert (Hl : (l < length A)%nat) by (apply nth_error_Some; congruence).
+      set (a := length (objs p)) in *.
+      set (k := N.to_nat (count sl / 2)) in *.
+      assert (Hk : (1 <= k < length (items sl))%nat).
+      { apply N.ltb_lt in E1. unfold k. rewrite Hcnt in *.
+        assert (1 <= N.of_nat (length (items sl)) / 2) by (apply N.div_le_lower_bound; lia).
+        assert (N.of_nat (length (items sl)) / 2 < N.of_nat (length (items sl))) by (apply N.div_lt; lia).
+        lia. }
+      destruct (Nat.ltb_spec (length (items sl)) k) as [?|_]; [lia|].
+      destruct (split_at (items sl) k Hk) as (F & te & g & G & EL & EF & EG & Ente & Ek).
+      assert (Et : match k with O => None | S k' => nth_error (items sl) k' end = Some te).
+      { destruct k; [lia|]. simpl in Ente. rewrite Nat.sub_0_r in Ente. auto. }
+      rewrite Et in HS.
+      set (s0 := mkSL (firstn k (items sl)) (Some te) (N.of_nat k)) in *.
+      set (s1 := mkSL (skipn k (items sl)) (tail sl) (count sl - N.of_nat k)) in *.
+      assert (W0 : wf s0).
+      { pose proof (wf_firstn key sl k Wsl ltac:(lia)) as H. rewrite Ente in H. exact H. }
+      assert (W1 : wf s1) by (apply (wf_skipn key sl k Wsl); lia).
+      (* the walk *)
+      assert (EW : p_walk_links k (nx p) (Hd l) = Ok (Nd te)).
+      { rewrite Ek. unfold chain in C. rewrite EL in C.
+        change (F ++ te :: g :: G) with (F ++ [te] ++ g :: G) in C. rewrite app_assoc in C.
+        apply seg_app in C as (m & C1 & _). eapply p_walk_links_spec; eauto. }
+      rewrite EW.
+      destruct (sort key f s0) as [s0'|] eqn:E0; [|discriminate].
+      destruct (sort key f s1) as [s1'|] eqn:E1'; [|discriminate].
+      destruct (merge_loop key (N.to_nat (count s0' + count s1')) sl_init s0' s1')
+        as [[[out xa] xb]|] eqn:EM; [|discriminate].
+      (* the split *)
+      set (A1 := upd A l sl_init ++ [s0; s1]).
+      set (p1 := p_split p l o (Nd te) k).
+      assert (WA1 : sys_wf A1).
+      { apply sys_wf_split with (sl := sl); auto. simpl. symmetry. apply firstn_skipn. }
+      assert (R1 : R A1 p1).
+      { unfold A1, p1, p_split.
+        apply (R_split A p l sl o F te g G s0 s1); auto. simpl. rewrite Hc. reflexivity. }
+      assert (Ea1 : nth_error A1 a = Some s0).
+      { unfold A1. rewrite nth_error_app2 by (rewrite upd_length; lia). rewrite upd_length.
+        replace (a - length A)%nat with 0%nat by lia. reflexivity. }
+      assert (Eb1 : nth_error A1 (S a) = Some s1).
+      { unfold A1. rewrite nth_error_app2 by (rewrite upd_length; lia). rewrite upd_length.
+        replace (S a - length A)%nat with 1%nat by lia. reflexivity. }
+      assert (El1 : nth_error A1 l = Some sl_init).
+      { unfold A1. rewrite nth_error_app1 by (rewrite upd_length; lia).
+        apply nth_error_upd_same; auto. }
+      assert (LA1 : length A1 = S (S a)).
+      { unfold A1. rewrite app_length, upd_length. simpl. lia. }
+      assert (Hf0 : (length (items s0) <= f)%nat) by (simpl; rewrite firstn_length; lia).
+      assert (Hf1 : (length (items s1) <= f)%nat) by (simpl; rewrite skipn_length; lia).
+      (* the two recursive calls *)
+      destruct (IH A1 p1 a s0 s0' WA1 R1 Ea1 Hf0 E0) as (p2 & Ep2 & R2).
+      pose proof (sys_wf_sort A1 a s0 f s0' WA1 Ea1 Hf0 E0) as WA2.
+      rewrite Ep2.
+      assert (Eb2 : nth_error (upd A1 a s0') (S a) = Some s1).
+      { rewrite nth_error_upd_other by lia. exact Eb1. }
+      destruct (IH (upd A1 a s0') p2 (S a) s1 s1' WA2 R2 Eb2 Hf1 E1') as (p3 & Ep3 & R3).
+      pose proof (sys_wf_sort _ (S a) s1 f s1' WA2 Eb2 Hf1 E1') as WA3.
+      rewrite Ep3.
+      set (A3 := upd (upd A1 a s0') (S a) s1') in *.
+      assert (El3 : nth_error A3 l = Some sl_init).
+      { unfold A3. rewrite !nth_error_upd_other by lia. exact El1. }
+      assert (Ea3 : nth_error A3 a = Some s0').
+      { unfold A3. rewrite nth_error_upd_other by lia. apply nth_error_upd_same. lia. }
+      assert (Eb3 : nth_error A3 (S a) = Some s1').
+      { unfold A3. apply nth_error_upd_same. rewrite upd_length. lia. }
+      destruct (proj2 R3 _ _ Ea3) as (oa3 & Eoa3 & _ & _ & Hca3).
+      destruct (proj2 R3 _ _ Eb3) as (ob3 & Eob3 & _ & _ & Hcb3).
+      rewrite Eoa3, Eob3, Hca3, Hcb3.
+      (* the merge loop *)
+      destruct (sim_merge _ A3 p3 l a (S a) sl_init s0' s1' out xa xb WA3 R3
+                          ltac:(lia) ltac:(lia) ltac:(lia) El3 Ea3 Eb3 EM)
+        as (p4 & Ep4 & R4 & WA4).
+      rewrite Ep4.
+      set (A4 := upd (upd (upd A3 l out) a xa) (S a) xb) in *.
+      assert (LA3 : length A3 = S (S a)) by (unfold A3; rewrite !upd_length; exact LA1).
+      assert (El4 : nth_error A4 l = Some out).
+      { unfold A4. rewrite !nth_error_upd_other by lia. apply nth_error_upd_same. lia. }
+      assert (Ea4 : nth_error A4 a = Some xa).
+      { unfold A4. rewrite nth_error_upd_other by lia. apply nth_error_upd_same. rewrite upd_length. lia. }
+      assert (Eb4 : nth_error A4 (S a) = Some xb).
+      { unfold A4. apply nth_error_upd_same. rewrite !upd_length. lia. }
+      destruct (proj2 R4 _ _ El4) as (ol4 & Eol4 & _).
+      destruct (proj2 R4 _ _ Ea4) as (oa4 & Eoa4 & _ & _ & Hca4).
+      destruct (proj2 R4 _ _ Eb4) as (ob4 & Eob4 & _).
+      rewrite Eol4, Eoa4, Eob4, Hca4.
+      (* firstn a of the final extended system *)
+      assert (Htrunc : forall c u v, (a <= c)%nat ->
+                firstn a (upd (upd A4 l u) c v) = upd A l u).
+      { intros c u v Hc'. unfold A4, A3, A1. firstn_push.
+        rewrite firstn_app, upd_length. replace (a - length A)%nat with 0%nat by lia.
+        simpl firstn. rewrite app_nil_r, firstn_all2 by (rewrite upd_length; lia).
+        rewrite !upd_upd. reflexivity. }
+      destruct (0 <? count xa) eqn:Eca; cbv iota.
+      + destruct (concat out xa) as [[o' s']|] eqn:ECo; [|discriminate].
+        inversion HS; subst sl'.
+        assert (Hns : forall l0, Concat l a <> Sort l0) by discriminate.
+        pose proof (sim_step_nosort key A4 p4 (Concat l a) WA4 R4 Hns) as HC.
+        cbn [SListModel.step p_step] in HC. unfold with_list, with_obj in HC.
+        rewrite (proj2 (Nat.eqb_neq l a)) in HC by lia.
+        rewrite El4, Ea4, ECo, Eol4, Eoa4 in HC.
+        destruct HC as (p5 & Ep5 & R5). injection Ep5 as <-.
+        eexists; split; [reflexivity|].
+        rewrite <- (Htrunc a o' s') by lia. apply R_firstn. exact R5.
+      + destruct (concat out xb) as [[o' s']|] eqn:ECo; [|discriminate].
+        inversion HS; subst sl'.
+        assert (Hns : forall l0, Concat l (S a) <> Sort l0) by discriminate.
+        pose proof (sim_step_nosort key A4 p4 (Concat l (S a)) WA4 R4 Hns) as HC.
+        cbn [SListModel.step p_step] in HC. unfold with_list, with_obj in HC.
+        rewrite (proj2 (Nat.eqb_neq l (S a))) in HC by lia.
+        rewrite El4, Eb4, ECo, Eol4, Eob4 in HC.
+        destruct HC as (p5 & Ep5 & R5). injection Ep5 as <-.
+        eexists; split; [reflexivity|].
+        rewrite <- (Htrunc (S a) o' s') by lia. apply R_firstn. exact R5.
+  Qed.
 End SimSort.
